@@ -137,3 +137,15 @@ V('C19', 'chained-spec-type-by-setting-membership', 'edb/server/config/spec.py',
             return self._base.get_type_by_name(name)''', 'C19.R9', 'ChainedSpec.get_type_by_name:routes-by-type-table')
 V('C19', 'iso-fraction-sign-from-int-seconds', 'edb/ir/statypes.py', 'edb.ir.statypes.Duration._parse_iso8601',
   '            value += int(ms) * secsign\n', "            value += int(ms) if int(m['seconds'] or 0) * secsign >= 0 else -int(ms)\n", 'C19.R9', 'fraction-sign-from-text')
+
+# round 4
+V('C19', 'from-json-drops-defaults', 'edb/server/config/ops.py',
+  'edb.server.config.ops.from_json',
+  '''            mm[key] = SettingValue(''',
+  '''            if value['value'] == setting.default:
+                continue
+            mm[key] = SettingValue(''', 'C19.R10', 'every-known-entry-installed')
+V('C19', 'config-object-eq-by-spec-identity', 'edb/server/config/types.py',
+  'edb.server.config.types.CompositeConfigType.__eq__',
+  'self._tspec != rhs._tspec', 'self._tspec is not rhs._tspec', 'C19.R10',
+  '__eq__:by-value')
